@@ -498,16 +498,22 @@ osSubdir(String buffer, String relativeTo, String subdir)
 Bool
 osFnameDirEqual(String dir1, String dir2)
 {
-	/* Strip off explicit leading current directories. */
+	/*
+	 * Strip off explicit leading current directories: a FCURDIR that is
+	 * a whole component ("." or "./"), not the first character of ".."
+	 * or of a name that merely starts with it.
+	 */
+#define osIsDirSep(c)	((c) == FDIRSEP || (FDIRSEPALT && (c) == FDIRSEPALT))
+#define osIsCurDir(d)	((d)[0] == FCURDIR && ((d)[1] == 0 || osIsDirSep((d)[1])))
 
-	while (*dir1 == FCURDIR || *dir2 == FCURDIR) {
-		if (*dir1 == FCURDIR) {
+	while (osIsCurDir(dir1) || osIsCurDir(dir2)) {
+		if (osIsCurDir(dir1)) {
 			dir1++;
-			if (*dir1 == FDIRSEP || (FDIRSEPALT && *dir1 == FDIRSEPALT)) dir1++;
+			if (osIsDirSep(*dir1)) dir1++;
 		}
-		if (*dir2 == FCURDIR) {
+		if (osIsCurDir(dir2)) {
 			dir2++;
-			if (*dir2 == FDIRSEP || (FDIRSEPALT && *dir2 == FDIRSEPALT)) dir2++;
+			if (osIsDirSep(*dir2)) dir2++;
 		}
 	}
 	return !strcmp(dir1, dir2);
